@@ -151,8 +151,10 @@ def impl_builtin(case):
     try:
         det = MVCAPA(GaussianVarCost(param=(0.0, 1.0)) if gv else None,
                      collective_penalty=case["cfam"], collective_penalty_scale=case["cs"], point_penalty=case["pfam"],
-                     point_penalty_scale=case["ps"], min_segment_length=case["m"], max_segment_length=max(case["M"], case["m"])).fit(X)
-        y = det.predict(X)
+                     point_penalty_scale=case["ps"], min_segment_length=case["m"], max_segment_length=max(case["M"], case["m"]))
+        data, _ = core.fit_for(det, case, X, reps=1)
+        data = core.prior_use(det, case, X, data)
+        y = det.predict(data)
         sv = to_saving(GaussianVarCost(param=(0.0, 1.0))).fit(X) if gv else L2Saving().fit(X)
         pv = L2Saving().fit(X)  # the point saving stays the default
         k = 2 if gv else 1
